@@ -18,6 +18,7 @@ def run(tier, seed):
         check.add_tlc(r)
         if any(f["dev"] == "VisitedSuffixSkip" for f in fails):
             live["VisitedSuffixSkip"] = known["VisitedSuffixSkip"]
+            check.known("VisitedSuffixSkip", known["VisitedSuffixSkip"]["text"])
     # design level: the visited heuristic over every definition tree of depth <= 2 with names {a, b, a.a}
     wd = common.workdir("C09-visited")
     r = common.tlc(wd, "Visited", "SPECIFICATION Spec\nINVARIANTS EveryCarrierVisited NoNilResult\nCHECK_DEADLOCK FALSE\n", timeout=600, workers=4)
